@@ -299,6 +299,13 @@ func GenProgram(r *RNG, o ProgOpts) *Program {
 					ref.generic = true
 					ref.kind = "struct"
 					fmt.Fprintf(&b, "type %s[T any] struct {\n\tV T\n\tP *T\n\tL []T\n}\n\n", name)
+					if r.Bool() {
+						// methods of the generic declaration mention T: their description must not depend on an instantiation
+						fmt.Fprintf(&b, "// Get of %s.\nfunc (recv %s[T]) Get(d T) T { return recv.V }\n\n", name, name)
+						if r.Bool() {
+							fmt.Fprintf(&b, "// Set of %s.\nfunc (recv *%s[T]) Set(v T, more ...T) (old *T) { panic(\"\") }\n\n", name, name)
+						}
+					}
 				} else {
 					ref.kind = "struct"
 					fmt.Fprintf(&b, "type %s struct{ V int }\n\n", name)
@@ -427,7 +434,8 @@ func (e *factExporter) node(t gotypes.Type) int {
 		if len(tps) > 0 {
 			tpf = strings.Join(tps, ";")
 		}
-		fields = []string{"named", Itoa(e.node(x.Underlying())), e.methods(x.NumMethods(), x.Method), tpf, Itoa(e.node(x.Origin().Underlying()))}
+		// methods and (last field) underlying node of the generic origin: what v2 describes a generic declaration by
+		fields = []string{"named", Itoa(e.node(x.Underlying())), e.methods(x.Origin().NumMethods(), x.Origin().Method), tpf, Itoa(e.node(x.Origin().Underlying()))}
 	case *gotypes.Pointer:
 		fields = []string{"pointer", Itoa(e.node(x.Elem()))}
 	case *gotypes.Slice:
